@@ -92,13 +92,18 @@ theorem mirror {α : Type} (cep : Cep α) (d n : Nat) (h : n ≤ 100 * d) (hne :
       ((firToPhaseAt cep d n).taps.length : Int) - 1 - (firToPhaseAt cep d n).postLen := by
   unfold firToPhaseAt
   rw [fold_mirror d n h, cls_mirror d n h, gt50_mirror d n h hne]
+  have hp := firToPhase_postLen (cep.work (fold d n)) (cls d n) (cep.sel (fold d n))
+  have hl := fun g => firToPhase_length (cep.work (fold d n)) g (cls d n) (cep.sel (fold d n))
   cases hg : gt50 d n
   · -- n < 50: the other side is read backwards
-    simp only [Bool.not_false]
-    exact ⟨firToPhase_reverse _ _ _, by rw [firToPhase_postLen]; simp⟩
-  · simp only [Bool.not_true]
-    refine ⟨by rw [firToPhase_reverse]; simp, ?_⟩
-    rw [firToPhase_postLen]; simp; omega
+    refine ⟨firToPhase_reverse _ _ _, ?_⟩
+    show (firToPhase _ true _ _).postLen = ((firToPhase _ false _ _).taps.length : Int) - 1 - (firToPhase _ false _ _).postLen
+    rw [hl false]; exact hp
+  · refine ⟨?_, ?_⟩
+    · show (firToPhase _ false _ _).taps = (firToPhase _ true _ _).taps.reverse
+      rw [firToPhase_reverse, List.reverse_reverse]
+    · show (firToPhase _ false _ _).postLen = ((firToPhase _ true _ _).taps.length : Int) - 1 - (firToPhase _ true _ _).postLen
+      rw [hl true]; omega
 
 /-- a cepstral part for the examples: `work[j] = j`, peak at 40, 21 taps in -/
 def exCep : Cep Nat := { sel := fun _ => { len := 21, workLen := 2048, peak := 40, begin0 := 13, end0 := 19 }, work := fun _ j => j }
@@ -121,22 +126,14 @@ example : (fun l : List Nat => (l.map (fun x => x * x)).sum) (firToPhaseAt exCep
 
 /-- mirror pairs have the same length -/
 theorem mirror_length {α : Type} (cep : Cep α) (d n : Nat) (h : n ≤ 100 * d) :
-    (firToPhaseAt cep d (100 * d - n)).taps.length = (firToPhaseAt cep d n).taps.length := by
-  unfold firToPhaseAt
-  rw [fold_mirror d n h, cls_mirror d n h]
-  simp
+    (firToPhaseAt cep d (100 * d - n)).taps.length = (firToPhaseAt cep d n).taps.length :=
+  at_mirror_length cep d n h
 
 /-- **Linear phase puts the peak in the middle** and keeps the length (the `phase1 == 1` branch). -/
 theorem linear_centred {α : Type} (cep : Cep α) (d : Nat) (hd : 0 < d) (hl : 1 ≤ (cep.sel (50 * d)).len) :
     (firToPhaseAt cep d (50 * d)).taps.length = (cep.sel (50 * d)).len ∧
-    (firToPhaseAt cep d (50 * d)).postLen = (((cep.sel (50 * d)).len - 1) / 2 : Nat) := by
-  have hc : cls d (50 * d) = .lin := (cls_lin_iff d (50 * d) hd (by omega)).mpr rfl
-  have hf : fold d (50 * d) = 50 * d := by unfold fold; simp
-  have hg : gt50 d (50 * d) = false := by unfold gt50; simp
-  unfold firToPhaseAt
-  rw [hc, hf, hg]
-  refine ⟨by simp [selWindow], ?_⟩
-  exact postLen_lin _ hl
+    (firToPhaseAt cep d (50 * d)).postLen = (((cep.sel (50 * d)).len - 1) / 2 : Nat) :=
+  at_linear_centred cep d hd hl
 
 example : (firToPhaseAt exCep 1 50).postLen = 10 ∧ (firToPhaseAt exCep 1 50).taps.length = 21 := by decide
 
@@ -160,25 +157,15 @@ theorem extreme_phase_window {α : Type} (cep : Cep α) (d : Nat) (hd : 0 < d) :
     (firToPhaseAt cep d 0).taps.length = (cep.sel 0).len ∧
     (firToPhaseAt cep d (100 * d)).taps.length = (cep.sel 0).len ∧
     (firToPhaseAt cep d 0).postLen = ((cep.sel 0).len : Int) - 1 - (cep.sel 0).peak ∧
-    (firToPhaseAt cep d (100 * d)).postLen = (cep.sel 0).peak := by
-  have f0 : fold d 0 = 0 := by unfold fold; simp
-  have f1 : fold d (100 * d) = 0 := by unfold fold; split <;> omega
-  have c0 : cls d 0 = .min := by unfold cls; simp [f0]
-  have c1 : cls d (100 * d) = .min := by unfold cls; simp [f1]
-  have g0 : gt50 d 0 = false := by unfold gt50; simp
-  have g1 : gt50 d (100 * d) = true := by unfold gt50; simp; omega
-  unfold firToPhaseAt
-  rw [f0, f1, c0, c1, g0, g1]
-  refine ⟨by simp [selWindow], by simp [selWindow], ?_, ?_⟩
-  · simp [firToPhase, postLen, selWindow]; omega
-  · simp [firToPhase, postLen, selWindow]
+    (firToPhaseAt cep d (100 * d)).postLen = (cep.sel 0).peak :=
+  at_extreme_phase_window cep d hd
 
 example : (firToPhaseAt exCep 1 0).postLen = -20 ∧ (firToPhaseAt exCep 1 100).postLen = 40 := by decide
 
 /-- **Every branch keeps `num_taps ≡ 1 (mod 4)`** (the design length for non-linear phase is `≡ 1 (mod 4)`). -/
 theorem transformed_length_mod4 {α : Type} (cep : Cep α) (d n : Nat) (h : (cep.sel (fold d n)).len % 4 = 1) :
-    (firToPhaseAt cep d n).taps.length % 4 = 1 := by
-  unfold firToPhaseAt; simp; exact selWindow_len_mod4 _ _ h
+    (firToPhaseAt cep d n).taps.length % 4 = 1 :=
+  at_transformed_length_mod4 cep d n h
 
 example : (exCep.sel (fold 1 25)).len % 4 = 1 ∧ (firToPhaseAt exCep 1 25).taps.length = 33 := by decide
 
@@ -194,7 +181,7 @@ theorem mirror_plans {α : Type} (base : DftIn) (cep : Cep α) (d n : Nat) (h : 
     (FDomainOK a ↔ FDomainOK b) := by
   intro a b
   obtain ⟨mt, mp⟩ := mirror cep d n h hne
-  have hlen : (firToPhaseAt cep d (100 * d - n)).taps.length = (firToPhaseAt cep d n).taps.length := by rw [mt]; simp
+  have hlen : (firToPhaseAt cep d (100 * d - n)).taps.length = (firToPhaseAt cep d n).taps.length := by rw [mt, List.length_reverse]
   have ha : a.numTaps = (firToPhaseAt cep d n).taps.length := (dft_nonlin _ rfl).1
   have hb : b.numTaps = (firToPhaseAt cep d (100 * d - n)).taps.length := (dft_nonlin _ rfl).1
   have hap : a.postPeak = (firToPhaseAt cep d n).postLen.toNat := (dft_nonlin _ rfl).2.1
